@@ -44,6 +44,138 @@ def _one(args):
     return idx, "MISSED", ""
 
 
+# --------------------------------------------------------------------------- corpora of patches (in memory)
+
+
+def apply_unified_diff(diff_text: str, read_file) -> dict[str, str] | None:
+    """{module name: new source} for the halmos modules a unified diff touches; None if a hunk does not apply"""
+    import re
+
+    out: dict[str, str] = {}
+    files = re.split(r"^diff --git .*$", diff_text, flags=re.M)
+    for block in files:
+        mm = re.search(r"^\+\+\+ b/(\S+)", block, flags=re.M)
+        if not mm:
+            continue
+        path = mm.group(1)
+        if not (path.startswith(PKG_DIR + "/") and path.endswith(".py")):
+            continue
+        name = os.path.basename(path)[:-3]
+        src = read_file(path)
+        if src is None:
+            return None
+        lines = src.split("\n")
+        result: list[str] = []
+        pos = 0
+        for h in re.finditer(r"^@@ -(\d+)(?:,(\d+))? \+(\d+)(?:,(\d+))? @@.*\n((?:[ +\-\\].*\n?|\n)*)", block, flags=re.M):
+            start = int(h.group(1)) - 1
+            body = h.group(5).split("\n")
+            if body and body[-1] == "":
+                body.pop()
+            result.extend(lines[pos:start])
+            pos = start
+            for ln in body:
+                if ln.startswith("\\"):
+                    continue
+                tag, text = (ln[:1], ln[1:]) if ln else (" ", "")
+                if tag == " ":
+                    if pos >= len(lines) or lines[pos] != text:
+                        return None
+                    result.append(lines[pos])
+                    pos += 1
+                elif tag == "-":
+                    if pos >= len(lines) or lines[pos] != text:
+                        return None
+                    pos += 1
+                elif tag == "+":
+                    result.append(text)
+        result.extend(lines[pos:])
+        out[name] = "\n".join(result)
+    return out
+
+
+def _patch_one(args):
+    prop, patch_path, root, expect_violation = args
+    from hsa import core
+    from hsa.cli import run_property
+
+    def read_file(rel):
+        try:
+            return open(os.path.join(root, rel), encoding="utf-8").read()
+        except OSError:
+            return None
+
+    try:
+        over = apply_unified_diff(open(patch_path, encoding="utf-8").read(), read_file)
+    except OSError:
+        return patch_path, "skipped", "unreadable"
+    if not over:
+        return patch_path, "skipped", "does not apply to the current tree"
+    for name, text in over.items():
+        try:
+            compile(text, name, "exec")
+        except SyntaxError as e:
+            return patch_path, "skipped", f"does not compile: {e}"
+    repo = Repo(root, overrides=over)
+    rep = run_property(prop, repo, "quick")
+    findings = core.load_known_findings()
+    new_v = [i for i in rep.violations if core.match_known(i, findings, prop) is None]
+    rules = ",".join(sorted({i.rule for i in new_v}))
+    if expect_violation:
+        if new_v:
+            return patch_path, "detected", rules
+        return patch_path, "analysis-error" if rep.errors else "MISSED", (rep.errors[0][:120] if rep.errors else "")
+    if new_v or rep.errors:
+        return patch_path, "FALSE-ALARM", rules or rep.errors[0][:120]
+    return patch_path, "quiet", ""
+
+
+def run_patch_corpora(prop: str, repo: Repo) -> dict:
+    """the seeded breaking changes of this property must be reported, the behaviour-preserving patches must not"""
+    from hsa.core import VERIF_ROOT
+
+    t0 = time.time()
+    jobs = []
+    sdir = os.path.join(VERIF_ROOT, "seeded")
+    if os.path.isdir(sdir):
+        for d in sorted(os.listdir(sdir)):
+            if d.startswith(prop + "-") and os.path.isfile(os.path.join(sdir, d, "patch.diff")):
+                jobs.append((prop, os.path.join(sdir, d, "patch.diff"), repo.root, True))
+    bdir = os.path.join(VERIF_ROOT, "benign")
+    if os.path.isdir(bdir):
+        for f in sorted(os.listdir(bdir)):
+            if f.endswith(".diff"):
+                jobs.append((prop, os.path.join(bdir, f), repo.root, False))
+    res = []
+    if jobs:
+        with ProcessPoolExecutor(max_workers=min(16, len(jobs))) as ex:
+            res = list(ex.map(_patch_one, jobs))
+    out = {"seeded_changes": 0, "seeded_detected": 0, "benign_patches": 0, "benign_quiet": 0, "skipped": 0, "failed": [], "samples": []}
+    for (prop_, path, _, expect), (_, status, info) in zip(jobs, res):
+        name = os.path.relpath(path, VERIF_ROOT)
+        if status == "skipped":
+            out["skipped"] += 1
+            continue
+        if expect:
+            out["seeded_changes"] += 1
+            if status == "detected":
+                out["seeded_detected"] += 1
+            else:
+                out["failed"].append(f"{status}: seeded change {name} is not reported {info}")
+        else:
+            out["benign_patches"] += 1
+            if status == "quiet":
+                out["benign_quiet"] += 1
+            else:
+                out["failed"].append(f"{status}: behaviour-preserving patch {name} raises {info}")
+        if len(out["samples"]) < 6 and status in ("detected", "quiet"):
+            out["samples"].append({"patch": name, "status": status, "rules_fired": info})
+    if jobs and out["skipped"] > len(jobs) // 2:
+        out["failed"].append(f"{out['skipped']} of {len(jobs)} corpus patches no longer apply to the tree")
+    out["wall_s"] = round(time.time() - t0, 2)
+    return out
+
+
 def run_for(prop: str, repo: Repo) -> dict:
     t0 = time.time()
     idxs = [i for i, mt in enumerate(M) if mt["prop"] == prop]
